@@ -63,6 +63,8 @@ CheckRoundTrip(rec) ==
     ELSE IF ~rec.omit /\ Tree(o, Out(rec, "out2")[3]) # Tree(o, Out(rec, "out1")[3]) THEN <<"C04", "second-output-differs">>
     ELSE IF ~rec.omit /\ rec.opts.name = "deterministic" /\ Out(rec, "out2")[3] # Out(rec, "out1")[3] THEN <<"C04", "deterministic-bytes-differ">>
     ELSE IF rec.flags[2] /\ ~rec.flags[1] THEN <<"C04", "decoded-value-differs">>
+    \* the same text read through a streaming decoder gives the same value
+    ELSE IF Has(rec, "dec1r") /\ (~Out(rec, "dec1r")[2] \/ ~rec.flags[3]) THEN <<"C04", "stream-route-differs">>
     ELSE <<>>
 
 \* ------------------------------------------------------------------ untyped targets
